@@ -29,6 +29,8 @@ def variant_calls(variant, bs, obs):
     if variant in ("vec_child", "local", "scraped"):
         # options built in another order of the builder methods (buckets first, then namespace, subsystem, a constant label)
         opts.update({"buckets_first": True, "ns": "n", "sub": "s", "const": [["c", "v"]]})
+        if variant != "local":
+            opts["buckets_decoy"] = [F(7.0), F(9.5)]      # .buckets(decoy).buckets(real): the later list stands, also when it is empty
     if variant == "histogram":
         calls = [{"op": "histogram", "as": "h", "opts": opts}]
         calls += [{"op": "observe", "obj": "h", "v": F(x)} for x in obs]
